@@ -2,8 +2,16 @@
 Model of the equational layer of the proof checker (`src/proofs/proof_checker.rs`,
 `proof_format.rs`): terms live in a hash-consed DAG (`TermDag`: equal terms have equal ids), a
 proof is a DAG of steps, each claiming a proposition `lhs = rhs`:
-* `leaf`  — Fiat / Rule / MergeFn: justified by the PROGRAM (checked by the in-tree checker; here
-            they are the hypotheses of the derivation);
+* `leaf`  — Fiat / MergeFn (and Rule steps of rules outside the modelled fragment: primitives,
+            globals, container side conditions): justified by the PROGRAM (checked by the in-tree
+            checker; here they are the hypotheses of the derivation);
+* `rule r prems σ` — `Justification::Rule`: rule number `r` of the checking program, one premise
+            proof per body fact, a substitution; `check_proof_with_context` looks the rule up, compares
+            the premise COUNT, matches every body fact (instantiated by σ) against the proposition of
+            its premise proof (`check_fact_matches_proposition`) and requires the claimed proposition
+            among the propositions of the instantiated head (`check_rule_produces_equality` /
+            `process_actions`: both directions of every `union`, and `t = t` for every subterm of
+            every evaluated head expression);
 * `sym p`, `trans p q`, `congr p i q` — the axioms egglog assumes.
 Steps are listed in dependency order (a step may only use earlier steps).
 -/
@@ -14,8 +22,35 @@ structure Term where
   kids : List Nat
 deriving DecidableEq, Repr
 
+/-- rule-side expressions: variables and constructor / function-row applications (literals are
+0-ary heads) -/
+inductive Pat where
+  | var (v : Nat)
+  | app (h : Nat) (kids : List Pat)
+deriving Repr
+
+/-- a body fact in proof normal form.  `(= e1 e2)`: both sides are compared; a function fact
+`(= (f args) v)` is the row term `f(args, v)` on both sides; a plain fact `e` only fixes the
+right-hand side of its premise (`anyLhs`). -/
+structure RFact where
+  anyLhs : Bool
+  lhs : Pat
+  rhs : Pat
+deriving Repr
+
+inductive Act where
+  | union (a b : Pat)
+  | expr (e : Pat)          -- `(e)`, and `(set (f args) v)` as the row term `f(args, v)`
+deriving Repr
+
+structure Rule where
+  body : List RFact
+  head : List Act
+deriving Repr
+
 inductive Just where
   | leaf
+  | rule (r : Nat) (prems : List Nat) (σ : List (Nat × Nat))
   | sym (p : Nat)
   | trans (p q : Nat)
   | congr (p : Nat) (i : Nat) (q : Nat)
@@ -30,10 +65,75 @@ deriving DecidableEq, Repr
 /-- replace the `i`-th child -/
 def setKid (kids : List Nat) (i : Nat) (c : Nat) : List Nat := kids.set i c
 
+/-- position of a term in the hash-consed table (`TermDag::app` of an existing term) -/
+def findIn : List Term → Term → Nat → Option Nat
+  | [], _, _ => none
+  | x :: xs, t, n => if x = t then some n else findIn xs t (n + 1)
+
+def findTerm (terms : Array Term) (t : Term) : Option Nat := findIn terms.toList t 0
+
+mutual
+/-- `eval_expr_with_subst`: the id of the instance of a rule-side expression -/
+def instId (terms : Array Term) (σ : List (Nat × Nat)) : Pat → Option Nat
+  | .var v => σ.lookup v
+  | .app h kids =>
+    match instIds terms σ kids with
+    | some ks => findTerm terms ⟨h, ks⟩
+    | none => none
+def instIds (terms : Array Term) (σ : List (Nat × Nat)) : List Pat → Option (List Nat)
+  | [] => some []
+  | p :: ps =>
+    match instId terms σ p, instIds terms σ ps with
+    | some x, some xs => some (x :: xs)
+    | _, _ => none
+end
+
+/-- `b` is a subterm of `a` (fuel = size of the table bounds the depth of the DAG) -/
+def reach (terms : Array Term) : Nat → Nat → Nat → Bool
+  | 0, a, b => a == b
+  | fuel + 1, a, b => a == b ||
+    match terms[a]? with
+    | some t => t.kids.any (fun k => reach terms fuel k b)
+    | none => false
+
+def headExprs : List Act → List Pat
+  | [] => []
+  | .union a b :: r => a :: b :: headExprs r
+  | .expr e :: r => e :: headExprs r
+
+def headEqs : List Act → List (Pat × Pat)
+  | [] => []
+  | .union a b :: r => (a, b) :: (b, a) :: headEqs r
+  | .expr _ :: r => headEqs r
+
+/-- `check_fact_matches_proposition` against the proposition of premise step `p` -/
+def factOk (terms : Array Term) (σ : List (Nat × Nat)) (prev : List Step) (f : RFact) (p : Nat) : Bool :=
+  match prev[p]? with
+  | some sp => (f.anyLhs || instId terms σ f.lhs == some sp.lhs) && instId terms σ f.rhs == some sp.rhs
+  | none => false
+
+/-- one premise per body fact, in order; a count mismatch is rejected -/
+def factsOk (terms : Array Term) (σ : List (Nat × Nat)) (prev : List Step) : List RFact → List Nat → Bool
+  | [], [] => true
+  | f :: fs, p :: ps => factOk terms σ prev f p && factsOk terms σ prev fs ps
+  | _, _ => false
+
+/-- `check_rule_produces_equality` -/
+def headOk (terms : Array Term) (σ : List (Nat × Nat)) (rl : Rule) (l r : Nat) : Bool :=
+  (headEqs rl.head).any (fun ab => instId terms σ ab.1 == some l && instId terms σ ab.2 == some r) ||
+  (l == r && (headExprs rl.head).any (fun e =>
+    match instId terms σ e with
+    | some x => reach terms terms.size x l
+    | none => false))
+
 /-- is step `s` (at position `n`, using only steps `< n`) correctly derived? -/
-def stepOk (terms : Array Term) (prev : List Step) (s : Step) : Bool :=
+def stepOk (rules : List Rule) (terms : Array Term) (prev : List Step) (s : Step) : Bool :=
   match s.just with
   | .leaf => true
+  | .rule r prems σ =>
+    match rules[r]? with
+    | some rl => factsOk terms σ prev rl.body prems && headOk terms σ rl s.lhs s.rhs
+    | none => false
   | .sym p =>
     match prev[p]? with
     | some sp => s.lhs == sp.rhs && s.rhs == sp.lhs
@@ -53,10 +153,11 @@ def stepOk (terms : Array Term) (prev : List Step) (s : Step) : Bool :=
     | _, _ => false
 
 /-- check a whole proof, steps in dependency order -/
-def checkFrom (terms : Array Term) : List Step → List Step → Bool
+def checkFrom (rules : List Rule) (terms : Array Term) : List Step → List Step → Bool
   | _, [] => true
-  | prev, s :: rest => stepOk terms prev s && checkFrom terms (prev ++ [s]) rest
+  | prev, s :: rest => stepOk rules terms prev s && checkFrom rules terms (prev ++ [s]) rest
 
-def checkProof (terms : Array Term) (steps : List Step) : Bool := checkFrom terms [] steps
+def checkProof (rules : List Rule) (terms : Array Term) (steps : List Step) : Bool :=
+  checkFrom rules terms [] steps
 
 end EgglogVerif.ProofCk
